@@ -306,6 +306,29 @@ func (e *Engine) Solve(o *Oblig, opts SolveOpts, stats *SolveStats, prep *sync.M
 				}
 			}
 			assumps = e.instantiate(assumps, goal, facts)
+			// defining equations of recursive spec functions, then one more round of instances for the
+			// array reads they introduce
+			fuel := e.Fuel
+			if fuel == 0 {
+				fuel = 1
+			}
+			if sp := e.Specs[o.Fn]; sp != nil && sp.Fuel > 0 {
+				fuel = sp.Fuel
+			}
+			// defining equations are only brought in when the goal itself speaks about a rec function
+			goalHasRec := false
+			Walk([]*Term{goal}, func(t *Term) {
+				if t.Op == OApp && strings.HasPrefix(t.Name, "rec.") {
+					goalHasRec = true
+				}
+			})
+			if !goalHasRec {
+				fuel = 0
+			}
+			if defs := e.unfoldRecs(append(append([]*Term(nil), assumps...), goal), fuel); len(defs) > 0 {
+				assumps = append(assumps, defs...)
+				assumps = e.instantiate(assumps, goal, facts)
+			}
 			assumps, goal, _ = e.propagateEqs(assumps, goal)
 		}
 		hdr := fmt.Sprintf("; obligation %s\n; function %s\n; position %s\n; path %s\n", o.ID, o.Fn, o.Pos, o.Path)
